@@ -180,13 +180,15 @@ def loops_to_comprehensions(tree):
     for node in ast.walk(tree):
         if isinstance(node, (ast.FunctionDef, ast.AsyncFunctionDef)):
             node.body = rec(node.body)
-    ast.fix_missing_locations(tree)
     return n[0]
 
 
 def fold_constant_conditions(tree):
     """N11: `a if True else b` -> `a`;  `if True: A else: B` -> A  (constant tests, typically left by inlining a helper called with a literal flag)"""
     n = [0]
+    if not any((isinstance(x, (ast.IfExp, ast.If)) and isinstance(x.test, ast.Constant)) or
+               (isinstance(x, ast.UnaryOp) and isinstance(x.op, ast.Not) and isinstance(x.operand, ast.Constant)) for x in ast.walk(tree)):
+        return 0
 
     class E(ast.NodeTransformer):
         def visit_IfExp(self, node):
@@ -222,21 +224,23 @@ def fold_constant_conditions(tree):
     for node in ast.walk(tree):
         if isinstance(node, (ast.FunctionDef, ast.AsyncFunctionDef)):
             node.body = rec(node.body) or [ast.Pass()]
-            # blocks emptied by folding
-            for x in ast.walk(node):
-                for fld in ('body',):
-                    sub = getattr(x, fld, None)
-                    if isinstance(sub, list) and not sub and isinstance(x, (ast.If, ast.For, ast.While, ast.With, ast.Try, ast.ExceptHandler)):
-                        setattr(x, fld, [ast.Pass()])
-    ast.fix_missing_locations(tree)
+    # blocks emptied by folding
+    for x in ast.walk(tree):
+        sub = getattr(x, 'body', None)
+        if isinstance(sub, list) and not sub and isinstance(x, (ast.If, ast.For, ast.While, ast.With, ast.Try, ast.ExceptHandler)):
+            x.body = [ast.Pass()]
     return n[0]
 
 
 def drop_unused_enumerate(tree):
     """N10: `for i, X in enumerate(IT): ...` with `i` never read in the function -> `for X in IT: ...` (also in comprehensions)"""
     n = [0]
+    if not any(isinstance(x, ast.Name) and x.id == 'enumerate' for x in ast.walk(tree)):
+        return 0
     for f in ast.walk(tree):
         if not isinstance(f, (ast.FunctionDef, ast.AsyncFunctionDef)):
+            continue
+        if not any(isinstance(x, ast.Name) and x.id == 'enumerate' for x in ast.walk(f)):
             continue
         loads = {}
         for x in ast.walk(f):
@@ -302,14 +306,12 @@ def split_tuple_assignments(tree):
     for node in ast.walk(tree):
         if isinstance(node, (ast.FunctionDef, ast.AsyncFunctionDef)):
             node.body = rec(node.body)
-    ast.fix_missing_locations(tree)
     return n[0]
 
 
 def normalize(tree):
     n = Normalizer()
     tree = n.visit(tree)
-    ast.fix_missing_locations(tree)
     n.counts['loop_to_comprehension'] = loops_to_comprehensions(tree)
     n.counts['enumerate_dropped'] = drop_unused_enumerate(tree)
     return tree, n.counts
